@@ -61,7 +61,7 @@ def step (st : St) (line : String) : St × List String :=
       match assemble src st.fix with
       | .error e => ({ st with parsed := some src }, [s!"R err {errName e}", facts src])
       | .ok bm => ({ st with parsed := some src, bm := some bm },
-                   [ "R ok", facts src ] ++ showBM bm ++ [s!"WF {if WfBM bm then 1 else 0}"])
+                   [ "R ok", facts src ] ++ showBM bm ++ [s!"WF {if WfBM bm then 1 else 0} cf={if CfClosed bm then 1 else 0}"])
   | ["SIM", i] =>
     let k := nat! i
     match st.parsed, st.bm with
